@@ -101,61 +101,71 @@ theorem options_covered :
 /-- every read or write of an option field in the six minifier packages, with its context (regenerated from the
     source on every run): the `Precision` fields reach nothing but `minify.Number`/`minify.Decimal` (and the JS
     literal printers), `newPrecision` is the clamped copy used for numbers the SVG path shortener computes itself,
-    every `Keep*` field is read at the sites modelled by the theorems below, the only writes go to the private copy
+    every `Keep*` field is read at the sites modelled by the theorems below (contexts are resolved through the type checker:
+    `if-condition`, `arg N of <callee>`, `assigned to field T.f`; names of variables and the text of conditions are not part
+    of the fact), the only writes go to the private copy
     `Minify` makes (`KeepConditionalComments` is folded into `KeepSpecialComments`; `Inline` from the `inline`
     parameter).  A new consumer of an option, or a check that disappears, changes this list. -/
 theorem option_sites_ok :
     Verif.Gen.OptionSites.sites =
-      ["css.Minifier.Minify: Inline WRITE", "css.Minifier.Minify: Inline arg of css.NewParser",
-       "css.Minifier.Minify: Inline if !o.Inline", "css.Minifier.Minify: Precision assigned to o.newPrecision",
-       "css.Minifier.Minify: newPrecision WRITE", "css.Minifier.Minify: newPrecision WRITE",
-       "css.Minifier.Minify: newPrecision if o.newPrecision <= 0 || 15 < o.newPrecision",
-       "css.Minifier.Minify: newPrecision if o.newPrecision <= 0 || 15 < o.newPrecision",
-       "css.cssMinifier.minifyNumber: KeepCSS2 if c.o.KeepCSS2 && bytes.IndexByte(num, 'e') == -1 && bytes.Ind..",
-       "css.cssMinifier.minifyNumber: Precision arg of minify.Decimal",
-       "css.cssMinifier.minifyNumber: Precision arg of minify.Number",
-       "css.cssMinifier.minifyProperty: KeepCSS2 if !c.o.KeepCSS2",
-       "html.Minifier.Minify: KeepComments if o.KeepComments", "html.Minifier.Minify: KeepConditionalComments WRITE",
-       "html.Minifier.Minify: KeepConditionalComments if o.KeepConditionalComments",
-       "html.Minifier.Minify: KeepDefaultAttrVals if !o.KeepDefaultAttrVals && (attr.Hash == Type && (t.Hash == S..",
-       "html.Minifier.Minify: KeepDefaultAttrVals if t.Hash == Input && !o.KeepDefaultAttrVals",
-       "html.Minifier.Minify: KeepDocumentTags assigned to isDocTag",
-       "html.Minifier.Minify: KeepEndTags if !o.KeepEndTags",
-       "html.Minifier.Minify: KeepEndTags if o.KeepEndTags && isDocTag",
-       "html.Minifier.Minify: KeepQuotes arg of html.EscapeAttrVal",
+      ["css.Minifier.Minify: Inline WRITE",
+       "css.Minifier.Minify: Inline arg 1 of css.NewParser",
+       "css.Minifier.Minify: Inline if-condition",
+       "css.Minifier.Minify: Precision assigned to field css.Minifier.newPrecision",
+       "css.Minifier.Minify: newPrecision WRITE",
+       "css.Minifier.Minify: newPrecision WRITE",
+       "css.Minifier.Minify: newPrecision if-condition",
+       "css.Minifier.Minify: newPrecision if-condition",
+       "css.cssMinifier.minifyNumber: KeepCSS2 if-condition",
+       "css.cssMinifier.minifyNumber: Precision arg 1 of minify.Decimal",
+       "css.cssMinifier.minifyNumber: Precision arg 1 of minify.Number",
+       "css.cssMinifier.minifyProperty: KeepCSS2 if-condition",
+       "html.Minifier.Minify: KeepComments if-condition",
+       "html.Minifier.Minify: KeepConditionalComments WRITE",
+       "html.Minifier.Minify: KeepConditionalComments if-condition",
+       "html.Minifier.Minify: KeepDefaultAttrVals if-condition",
+       "html.Minifier.Minify: KeepDefaultAttrVals if-condition",
+       "html.Minifier.Minify: KeepDocumentTags assigned to a local",
+       "html.Minifier.Minify: KeepEndTags if-condition",
+       "html.Minifier.Minify: KeepEndTags if-condition",
+       "html.Minifier.Minify: KeepQuotes arg 3 of html.EscapeAttrVal",
        "html.Minifier.Minify: KeepSpecialComments WRITE",
-       "html.Minifier.Minify: KeepSpecialComments if o.KeepSpecialComments",
-       "html.Minifier.Minify: KeepWhitespace if o.KeepWhitespace",
-       "html.Minifier.Minify: KeepWhitespace if o.KeepWhitespace || t.Traits & objectTag != 0",
-       "html.Minifier.Minify: KeepWhitespace if o.KeepWhitespace || t.Traits & objectTag != 0",
-       "html.Minifier.Minify: TemplateDelims arg of html.NewTemplateLexer",
-       "js.Minifier.Minify: KeepVarNames arg of newRenamer", "js.Minifier.Minify: KeepVarNames if o.KeepVarNames",
-       "js.Minifier.Minify: useAlphabetVarNames arg of newRenamer", "js.Minifier.minVersion: Version returned",
+       "html.Minifier.Minify: KeepSpecialComments if-condition",
+       "html.Minifier.Minify: KeepWhitespace if-condition",
+       "html.Minifier.Minify: KeepWhitespace if-condition",
+       "html.Minifier.Minify: KeepWhitespace if-condition",
+       "html.Minifier.Minify: TemplateDelims arg 1 of html.NewTemplateLexer",
+       "js.Minifier.Minify: KeepVarNames arg 0 of js.newRenamer",
+       "js.Minifier.Minify: KeepVarNames if-condition",
+       "js.Minifier.Minify: useAlphabetVarNames arg 1 of js.newRenamer",
        "js.Minifier.minVersion: Version returned",
-       "js.jsMinifier.countHoistLength: KeepVarNames if !m.o.KeepVarNames",
-       "js.jsMinifier.minifyArrowFunc: KeepVarNames assigned to m.renamer.rename",
-       "js.jsMinifier.minifyExpr: Precision arg of binaryNumber",
-       "js.jsMinifier.minifyExpr: Precision arg of decimalNumber",
-       "js.jsMinifier.minifyExpr: Precision arg of hexadecimalNumber",
-       "js.jsMinifier.minifyExpr: Precision arg of octalNumber",
-       "js.jsMinifier.minifyFuncDecl: KeepVarNames assigned to m.renamer.rename",
-       "js.jsMinifier.minifyMethodDecl: KeepVarNames assigned to m.renamer.rename",
-       "json.Minifier.Minify: KeepNumbers if !o.KeepNumbers && 0 < len(text) && ('0' <= text[0] && text[0..",
-       "json.Minifier.Minify: Precision arg of minify.Number", "svg.Minifier.Minify: Inline WRITE",
-       "svg.Minifier.Minify: Inline if !o.Inline",
-       "svg.Minifier.Minify: Inline if tag == Svg && (o.Inline && attr == Xmlns || attr == Version ..",
-       "svg.Minifier.Minify: KeepComments if o.KeepComments",
-       "svg.Minifier.Minify: Precision assigned to o.newPrecision", "svg.Minifier.Minify: newPrecision WRITE",
+       "js.Minifier.minVersion: Version returned",
+       "js.jsMinifier.countHoistLength: KeepVarNames if-condition",
+       "js.jsMinifier.minifyArrowFunc: KeepVarNames assigned to field js.renamer.rename",
+       "js.jsMinifier.minifyExpr: Precision arg 1 of js.binaryNumber",
+       "js.jsMinifier.minifyExpr: Precision arg 1 of js.decimalNumber",
+       "js.jsMinifier.minifyExpr: Precision arg 1 of js.hexadecimalNumber",
+       "js.jsMinifier.minifyExpr: Precision arg 1 of js.octalNumber",
+       "js.jsMinifier.minifyFuncDecl: KeepVarNames assigned to field js.renamer.rename",
+       "js.jsMinifier.minifyMethodDecl: KeepVarNames assigned to field js.renamer.rename",
+       "json.Minifier.Minify: KeepNumbers if-condition",
+       "json.Minifier.Minify: Precision arg 1 of minify.Number",
+       "svg.Minifier.Minify: Inline WRITE",
+       "svg.Minifier.Minify: Inline if-condition",
+       "svg.Minifier.Minify: Inline if-condition",
+       "svg.Minifier.Minify: KeepComments if-condition",
+       "svg.Minifier.Minify: Precision assigned to field svg.Minifier.newPrecision",
        "svg.Minifier.Minify: newPrecision WRITE",
-       "svg.Minifier.Minify: newPrecision if o.newPrecision <= 0 || 15 < o.newPrecision",
-       "svg.Minifier.Minify: newPrecision if o.newPrecision <= 0 || 15 < o.newPrecision",
-       "svg.Minifier.shortenDimension: Precision arg of minify.Number",
-       "svg.PathData.shortenAltPosInstruction: newPrecision arg of minify.Number",
-       "svg.PathData.shortenCurPosInstruction: Precision arg of minify.Number",
-       "xml.Minifier.Minify: KeepWhitespace if !o.KeepWhitespace",
-       "xml.Minifier.Minify: KeepWhitespace if next.TokenType == xml.TextToken && !o.KeepWhitespace && pars..",
-       "xml.Minifier.Minify: KeepWhitespace if o.KeepWhitespace",
-       "xml.Minifier.Minify: KeepWhitespace if o.KeepWhitespace"] := by decide
+       "svg.Minifier.Minify: newPrecision WRITE",
+       "svg.Minifier.Minify: newPrecision if-condition",
+       "svg.Minifier.Minify: newPrecision if-condition",
+       "svg.Minifier.shortenDimension: Precision arg 1 of minify.Number",
+       "svg.PathData.shortenAltPosInstruction: newPrecision arg 1 of minify.Number",
+       "svg.PathData.shortenCurPosInstruction: Precision arg 1 of minify.Number",
+       "xml.Minifier.Minify: KeepWhitespace if-condition",
+       "xml.Minifier.Minify: KeepWhitespace if-condition",
+       "xml.Minifier.Minify: KeepWhitespace if-condition",
+       "xml.Minifier.Minify: KeepWhitespace if-condition"] := by decide
 
 /-! ## per-option theorems: JSON, XML (re-exported from the language models) -/
 
